@@ -211,7 +211,10 @@ class OracleRunner(kscript.Runner):
                 self.trig_at[self.lab(ev)] = (self.env.nstep, self.env.seq, name, self.env.now)
         elif what == 'until-return':
             ev, was_done, normal = a
-            self.until_returns.append((self.lab(ev), was_done, len([l for l in self.lines if l[0] in 'PB']), normal, self.env.now))
+            crashed = any(l.startswith('X ') and not (l.split(' ')[1] in ('ValueError', 'RuntimeError', 'EmptySchedule') and l.split(' ')[2] in ('s*', ''))
+                          for l in self.lines)      # an exception other than a refusal came out of an earlier piece of the run
+            self.until_returns.append((self.lab(ev), was_done, len([l for l in self.lines if l[0] in 'PB']), normal and ev.processed and not crashed,
+                                       self.env.now))
         elif what == 'interrupt':
             name, victim, cause, alive, selfi, raised, me, busy = a
             self.rec.append(('interrupt', self._tick(), name, (self.pnames.get(id(victim)), id(victim)), cause, alive, selfi, raised, self.env.now, busy))
@@ -728,7 +731,9 @@ def oracle_until_event_return(case, lines, runner=None):
     with E not yet processed and returns normally, it returns right behind the kernel step that processed E - nothing that the
     waiters of E set going in that instant (the first statement of a process they started, the delivery of an interrupt they
     issued, the waiters of an event they triggered) has been observed by then.  Observations = what process bodies and probe
-    callbacks see (the P and B lines of the trace); counted at the end of the kernel step that processed E and at the return."""
+    callbacks see (the P and B lines of the trace); counted at the end of the kernel step that processed E and at the return.
+    Stands down when E is not processed at the return (oracle_split reports that) and after an exception escaped from an earlier
+    piece of the run (a stop left behind by the aborted piece may end this one: outside the statement)."""
     if case.mode != 'plan':
         return []
     r = instrumented(case)
